@@ -129,7 +129,9 @@ def stack_pops_alias_built_value(w, p, path):
                 cur = cur[int(li or ti)]
                 node, field = None, None  # the violating value is an element below the field: not decidable here
         if node is None:
-            return bool(not w.spec.get("future_annotations")) and not getattr(w, "is_corpus", False)
+            # an ELEMENT of a list / tuple: the stack machine builds a list from the stack of the element symbol it reads off the
+            # grammar's own list symbol, and that stack holds the alias-built values whatever form the module's annotations have
+            return True
         hint = dict(get_arguments(type(node)))[field]
         return hint in set(w.grammar.get_all_mentioned_symbols())
     except Exception:
